@@ -70,6 +70,13 @@ CLAIMS["C18"] = ("MIR dominance and dataflow on the spawn/join sites, guard live
     "which the coordinator tests before each blocking receive; the handler is installed before the first spawn. Does not decide timing.",
     "DESIGN.md §3 C18")
 
+CLAIMS["C19"] = ("field-write inventory of the four sibling updaters, provenance of updater arguments in each message arm of the coordinator, paired write/accounting rule for every direct stdout write, call-graph reachability from print_summary to stdout sinks, per-write accounting rule inside all printer variants",
+    "Static necessary-condition check of the summary bookkeeping: sibling updaters agree on bytes/flushed/lines/kind counter/datetimes; the "
+    "per-file and total updaters receive exactly the print call's returned counts; separator and supplied-newline bytes go to the total only, "
+    "exactly where written; nothing reachable from print_summary writes to stdout; the bounds shown are the ones the workers got; every stdout "
+    "write_all in the printers is followed by printed += len(the same bytes). Does not decide the summary's text or per-reader statistics.",
+    "DESIGN.md §3 C19")
+
 NA_REASON = {}
 
 checks = []
